@@ -564,6 +564,7 @@ def ctx_stream(tier, seed, *, scale=1.0, with_wide=True, max_rnd=None, with_huge
         yield from struct(seed, [2, 3, 4, 5, 6])
         yield from via_variants(seed, int(240 * scale))
         yield from crc_twins(seed, int(16 * scale))
+        yield from subclassed(seed, int(60 * scale))
         yield from tall(seed, int(60 * scale))
         if with_wide:
             yield from wide(seed, int(48 * scale))
@@ -587,6 +588,7 @@ def ctx_stream(tier, seed, *, scale=1.0, with_wide=True, max_rnd=None, with_huge
         yield from near(structs[::3], seed, per=int(3 * scale) or 1)
         yield from via_variants(seed, int(4800 * scale))
         yield from crc_twins(seed, int(240 * scale))
+        yield from subclassed(seed, int(1200 * scale))
         yield from tall(seed, int(2000 * scale))
         if with_wide:
             yield from wide(seed, int(1200 * scale))
@@ -619,6 +621,22 @@ def via_variants(seed, count, tag='VIA'):
             rows, m = decorate(rows, m, rng.choice(DECORATIONS), rng)
         c = case(tag, rows, m, SCHEMES[k % 5], rng)
         c['via'] = VIAS[k % len(VIAS)]
+        yield c
+
+
+def subclassed(seed, count, tag='SUBCLASS'):
+    """Tables whose context is an instance of a trivial user subclass of Context (``case['subclass']``),
+    a third of them additionally through a persistence route."""
+    rng = random.Random(f'{seed}/{tag}')
+    for k in range(count):
+        n, m = rng.randint(1, 8), rng.randint(1, 8)
+        rows = rnd_rows(rng, n, m, DENSITIES[k % len(DENSITIES)])
+        if k % 4 == 0:
+            rows, m = decorate(rows, m, rng.choice(DECORATIONS), rng)
+        c = case(tag, rows, m, SCHEMES[k % 5], rng)
+        c['subclass'] = True
+        if k % 3 == 0:
+            c['via'] = ['fromdict', 'copy', 'pickle', 'json', 'literal', 'deepcopy', 'fromdict-raw'][k // 3 % 7]
         yield c
 
 
